@@ -15,8 +15,8 @@ STRUCT_DOM = [(a, b) for a in (0, 1, 2) for b in (0, 1, 2)]
 
 class T:
     """matcher tree node: kind, args; cxx() -> C++ text; ev(x) -> bool"""
-    def __init__(self, kind, *args, typed=False):
-        self.kind, self.args, self.typed = kind, args, typed
+    def __init__(self, kind, *args, typed=False, var=None):
+        self.kind, self.args, self.typed, self.var = kind, args, typed, var   # var: operand given as a named local that is changed afterwards
 
 
 REL = {'eq': lambda x, v: x == v, 'ne': lambda x, v: x != v, 'lt': lambda x, v: x < v, 'le': lambda x, v: x <= v,
@@ -63,9 +63,10 @@ def cxx(t, dom):
     k = t.kind
     ty = {'int': 'int', 'str': 'std::string'}.get(dom)
     if k in REL:
+        opnd = t.var if t.var else '%d' % t.args[0]
         if t.typed and dom == 'int':
-            return 'trompeloeil::%s<int>(%d)' % (k, t.args[0])
-        return 'trompeloeil::%s(%d)' % (k, t.args[0])
+            return 'trompeloeil::%s<int>(%s)' % (k, opnd)
+        return 'trompeloeil::%s(%s)' % (k, opnd)
     if k == 'val':
         return '%d' % t.args[0]
     if k == 'wild':
@@ -95,8 +96,24 @@ def cxx(t, dom):
             return 'trompeloeil::re(%s, std::regex_constants::match_not_bol)' % p
         return 'trompeloeil::re(%s)' % p
     if k == 'streq':
+        if t.var:
+            return 'trompeloeil::eq(%s)' % t.var
         return 'trompeloeil::eq(std::string(%s))' % json.dumps(t.args[0])
     raise ValueError(k)
+
+
+def assign_vars(t, acc):
+    """give every leaf marked var=True a variable name; acc collects (name, ctype, init, changed)"""
+    if t.var is True:
+        name = 'opv%d' % len(acc)
+        if t.kind == 'streq':
+            acc.append((name, 'std::string', json.dumps(t.args[0]), '"changed-afterwards"'))
+        else:
+            acc.append((name, 'int', '%d' % t.args[0], '%d' % (t.args[0] + 40)))
+        t.var = name
+    for a in t.args:
+        if isinstance(a, T):
+            assign_vars(a, acc)
 
 
 def gen_int(rng, depth, allow_val=False, top=False):
@@ -107,7 +124,7 @@ def gen_int(rng, depth, allow_val=False, top=False):
         if allow_val and r < 0.3:
             return T('val', rng.choice(INT_OPS))
         if r < 0.85:
-            return T(rng.choice(list(REL)), rng.choice(INT_OPS), typed=rng.random() < 0.3)
+            return T(rng.choice(list(REL)), rng.choice(INT_OPS), typed=rng.random() < 0.3, var=(True if rng.random() < 0.25 else None))
         return T('wild' if top and rng.random() < 0.5 else 'any')
     r = rng.random()
     if r < 0.3:
@@ -143,7 +160,7 @@ def gen_str(rng, depth):
     if depth <= 0 or r < 0.5:
         if rng.random() < 0.8:
             return T('re', rng.choice(PATTERNS), rng.choice(['none', 'none', 'icase', 'notbol']))
-        return T('streq', rng.choice(STR_DOM[:5]))
+        return T('streq', rng.choice(STR_DOM[:5]), var=(True if rng.random() < 0.6 else None))
     if r < 0.7:
         return T('not', gen_str(rng, depth - 1))
     return T(rng.choice(['anyof', 'allof', 'noneof']), *[gen_str(rng, depth - 1) for _ in range(rng.randint(1, 3))])
@@ -171,7 +188,30 @@ template <typename F> static int called(F&& f) { G::reports().clear(); try { f()
 
 
 def emit_test(k, t, dom):
+    acc = []
+    assign_vars(t, acc)
     e = cxx(t, dom)
+    decl = ' '.join('%s %s = %s;' % (ct, n, init) for n, ct, init, ch in acc)
+    mut = ' '.join('%s = %s;' % (n, ch) for n, ct, init, ch in acc)
+    L0 = emit_test_body(k, t, dom, e)
+    out = []
+    for ln in L0:
+        # operands given as named locals are changed right after the matcher / expectation has been created
+        ln = ln.replace('{ auto m = %s;' % e, '{ %s auto m = %s; %s' % (decl, e, mut))
+        ln = re_sub_allow(ln, e, decl, mut)
+        out.append(ln)
+    return '\n'.join(out)
+
+
+def re_sub_allow(ln, e, decl, mut):
+    i = ln.find('{ MockC mk; ALLOW_CALL(mk, ')
+    if i < 0 or not decl:
+        return ln
+    j = ln.find(');', ln.find(e, i) + len(e))   # end of the ALLOW_CALL statement
+    return ln[:i] + '{ ' + decl + ' MockC mk; ' + ln[i + len('{ MockC mk; '):j + 2] + ' ' + mut + ln[j + 2:]
+
+
+def emit_test_body(k, t, dom, e):
     L = ['static void test_%d() {' % k]
     if dom == 'int':
         L.append('  { auto m = %s; for (int i = 0; i < 7; ++i) { int x = INT_DOM[i]; G::out("r %d pm %%d %%d", i, trompeloeil::param_matches(m, std::ref(x)) ? 1 : 0); } }' % (e, k))
@@ -195,7 +235,7 @@ def emit_test(k, t, dom):
         L.append('  { MockC mk; ALLOW_CALL(mk, fcs(%s)); for (int i = 0; i < %d; ++i) { char const* x = i < 6 ? STR_DOM[i] : nullptr; G::out("r %d callc %%d %%d", i, called([&]{ mk.fcs(x); })); } }' % (e, ncs, k))
     L.append('}')
     L.append('static G::Reg reg_%d(%d, &test_%d);' % (k, k, k))
-    return '\n'.join(L)
+    return L
 
 
 def domain_values(dom, mode):
@@ -233,6 +273,9 @@ def plan(tier, seed):
                       ('int', T('noneof', base, T('gt', 2))), ('int', T('not', T('anyof', base, T('gt', 2)))),
                       ('int', T('allof', T('not', base), T('not', T('gt', 2)))), ('ptr', T('deref', base)),
                       ('ptr', T('not', T('deref', base))), ('struct', T('member', 0, base))]
+    trees += [('int', T('lt', 2, var=True)), ('int', T('not', T('eq', 1, var=True))), ('int', T('anyof', T('val', 0), T('ge', 3, var=True))),
+              ('str', T('streq', 'abc', var=True)), ('str', T('not', T('streq', 'b', var=True))), ('str', T('anyof', T('streq', '', var=True), T('re', '^x', 'none'))),
+              ('struct', T('member', 1, T('eq', 2, var=True)))]
     trees += [('int', T('wild')), ('int', T('any')), ('ptr', T('isnull')), ('ptr', T('notnull')), ('ptr', T('deref', T('any')))]
     for pat in PATTERNS:
         for flag in ('none', 'icase', 'notbol'):
